@@ -428,3 +428,29 @@ Qed.
 
 Print Assumptions lex_render.
 Print Assumptions lex_lrender.
+
+(* a decidable form of [num_ok] *)
+Definition num_okb (v : bytes) : bool :=
+  match take_while is_digit v with
+  | [] => false
+  | _ => match drop_while is_digit v with
+         | [] => true
+         | [x] => is_quant x
+         | _ => false
+         end
+  end.
+
+Lemma take_drop_app : forall f l, take_while f l ++ drop_while f l = l.
+Proof. induction l as [|a l IH]; [reflexivity|]. cbn. destruct (f a); [cbn; rewrite IH|]; reflexivity. Qed.
+
+Lemma take_while_all_f : forall f l, forallb f (take_while f l) = true.
+Proof. induction l as [|a l IH]; [reflexivity|]. cbn. destruct (f a) eqn:E; [cbn; rewrite E, IH|]; reflexivity. Qed.
+
+Lemma num_okb_ok : forall v, num_okb v = true -> num_ok v.
+Proof.
+  intros v H. unfold num_okb in H. exists (take_while is_digit v), (drop_while is_digit v).
+  split; [symmetry; apply take_drop_app|].
+  destruct (take_while is_digit v) as [|d ds] eqn:E; [discriminate|].
+  split; [discriminate|]. split; [rewrite <- E; apply take_while_all_f|].
+  destruct (drop_while is_digit v) as [|x [|y r]]; [left; reflexivity|right; exists x; auto|discriminate].
+Qed.
